@@ -6,11 +6,18 @@
     announced number of records and then stops, with no Panic outcome of the model (no index out of
     range, no failed assertion, no exhausted loop budget).
 
-    [C03_full_statement] below is the whole property as stated; the part not yet covered by a theorem
-    (the values returned by the accessors equal RFC 1035 decoding, and the OPT-skipping walk) is decided
-    on every run by the correspondence and the independent reference decoder - see DESIGN.md. *)
+    Proved as well (C03_walk_values): that walk visits exactly the records that lie back to back in the
+    section under the declarative reading of Spec/RecordSpec.v, in order, and on each of them the
+    accessors return the offset, the owner name (raw bytes with their length, and lower-cased dotted
+    text), type, class, TTL, data length and data of that reading; the reading is a function of the
+    bytes (C03_reading_unique). The name readers return the labels of the policy name they are
+    pointed at (C03_copy_name_labels, C03_name_text).
+
+    Not covered by a theorem: the OPT-skipping walk, the question cursor and the EDNS option cursor
+    (decided on every run by the correspondence and the independent reference decoder). *)
 From DV Require Import Model.Base Model.NameCheck Model.Parser Model.Header Model.Readers
-  Proofs.Hoare Proofs.ParserTotal Proofs.ParserInv Proofs.ReadersAgree.
+  Spec.NameSpec Spec.PacketSpec Spec.RecordSpec
+  Proofs.Hoare Proofs.ParserTotal Proofs.ParserInv Proofs.ReadersAgree Proofs.ReadersLabels Proofs.WalkValues.
 
 Theorem C03_skip_name_agrees : forall (p : bytes) (off e : nat),
   check_compressed_name p off = Ok e -> e < length p -> skip_name p off = Ok e.
@@ -40,10 +47,41 @@ Theorem C03_walk_including_opt_total : forall (p : bytes) (v : ppacket), bytes_o
 Proof. exact walk_including_opt_total. Qed.
 Print Assumptions C03_walk_including_opt_total.
 
+Theorem C03_copy_name_labels : forall (p : bytes), bytes_ok p -> forall off ls e nm,
+  cname_l p off ls e ->
+  copy_uncompressed_name nm p off = Ok (nm ++ wire_of_labels ls, length (wire_of_labels ls), e).
+Proof. exact copy_uncompressed_name_labels. Qed.
+Print Assumptions C03_copy_name_labels.
+
+Theorem C03_name_text : forall (p : bytes) off ls e, bytes_ok p ->
+  cname_l p off ls e -> raw_name_to_str p off = Ok (dotted ls).
+Proof. exact raw_name_to_str_dotted. Qed.
+Print Assumptions C03_name_text.
+
+Theorem C03_walk_values : forall p v, bytes_ok p -> parse p = Ok v ->
+  exists an ns ar qe e1 e2 la ln lr,
+    hdr_ancount p = Ok an /\ hdr_nscount p = Ok ns /\ hdr_arcount p = Ok ar /\ cname p 12 qe /\
+    records_at p (qe + 4) la e1 /\ length la = N.to_nat an /\ walk_views v SAnswer = Ok (map (view_of p) la) /\
+    records_at p e1 ln e2 /\ length ln = N.to_nat ns /\ walk_views v SNameServers = Ok (map (view_of p) ln) /\
+    records_at p e2 lr (length p) /\ length lr = N.to_nat ar /\ walk_views v SAdditional = Ok (map (view_of p) lr).
+Proof. exact walk_views_spec. Qed.
+Print Assumptions C03_walk_values.
+
+Theorem C03_reading_unique : forall p off l e, records_at p off l e ->
+  forall l' e', records_at p off l' e' -> length l = length l' -> l = l' /\ e = e'.
+Proof. exact records_at_fun. Qed.
+Print Assumptions C03_reading_unique.
+
 (** Non-vacuity: a response with one answer walks to one record at offset 29. *)
 Definition sample_response : bytes :=
   [0;7; 129;128; 0;1; 0;1; 0;0; 0;0; 7;101;120;97;109;112;108;101; 3;99;111;109; 0; 0;1; 0;1;
    192;12; 0;1; 0;1; 0;0;0;60; 0;4; 10;0;0;1]%N.
 Example C03_sample_walk :
   exists v, parse sample_response = Ok v /\ walk_offsets v SAnswer = Ok [29].
+Proof. vm_compute. eexists. split; reflexivity. Qed.
+
+Example C03_sample_views :
+  exists v, parse sample_response = Ok v /\
+    walk_views v SAnswer = Ok [(29, ([7;101;120;97;109;112;108;101; 3;99;111;109; 0]%N, 13),
+                                [101;120;97;109;112;108;101; 46; 99;111;109]%N, 1%N, 1%N, 60%N, 4, inl [10;0;0;1]%N)].
 Proof. vm_compute. eexists. split; reflexivity. Qed.
